@@ -116,5 +116,6 @@ type Trace struct {
 	Events     []Event `json:"events"`
 	Goroutines int     `json:"goroutines"`
 	NumGC      uint32  `json:"numGC"`
-	Fail       string  `json:"fail,omitempty"` // node-level trouble (bad job etc.), never a verdict
+	Fail       string  `json:"fail,omitempty"`   // node-level trouble (bad job etc.), never a verdict
+	Stacks     string  `json:"stacks,omitempty"` // all goroutine stacks when more than one goroutine was alive at the end
 }
